@@ -69,6 +69,12 @@ impl Handler for NoSyncFnInAsyncFnHandler {
         FnDecl(decl) => decl.function.is_async(),
         FnExpr(decl) => decl.function.is_async(),
         ArrowExpr(decl) => decl.is_async(),
+        MethodProp(decl) => decl.function.is_async(),
+        ClassMethod(decl) => decl.function.is_async(),
+        PrivateMethod(decl) => decl.function.is_async(),
+        Constructor(_) | GetterProp(_) | SetterProp(_) | StaticBlock(_) => {
+          false
+        }
         _ => {
           let parent = match node.parent() {
             Some(p) => p,
